@@ -331,12 +331,13 @@ def r_unusable_paths_reported(r, prog):
         r.finding('unusable-path-dropped-silently', call[0].span, 'find_slice_files can hand a path that is neither a file nor a directory to the walk, which ignores it: such a path (a device, pipe, socket) is dropped without a diagnostic')
     # ... and every pass of the loop over the listed paths ends in one or the other: the walk, or a diagnostic pushed (a path that does not
     # exist, whether it was listed as a source or as a reference, is an error and not a silent `continue`)
-    pushes = [c for c in f.calls() if c.name() == 'push_into' and not f.blocks[c.bb].get('cleanup')]
+    # (a report made through a private helper that pushes on every path counts like the push itself)
+    pushes = sorted(effect_blocks(prog, f, lambda g: [c.bb for c in g.calls() if c.name() == 'push_into' and not g.blocks[c.bb].get('cleanup')]))
     if lp is None:
         raise AnchorMissing('the loop over the listed paths')
     head, body = lp
     some = [arm(e, 1) for e in enum_switches(f) if e['bb'] in body and loop_of(f, e['bb'])[0] == head and 1 in e['arms'] and any(f.dominates(n.bb, e['bb']) and n.bb in body for n in nx)]
-    if some and pushes and must_pass(f, some[0], [head], [call[0].bb] + [c.bb for c in pushes], within=body):
+    if some and pushes and must_pass(f, some[0], [head], [call[0].bb] + pushes, within=body):
         r.ok('every listed path is walked or reported (%d reporting sites): no pass of the loop ends without one of the two' % len(pushes))
     else:
         r.finding('listed-path-skipped-silently', f.span, 'find_slice_files can go on to the next listed path without walking the current one and without pushing a diagnostic: a path that cannot be used is dropped silently')
